@@ -36,29 +36,42 @@ class Check(BaseCheck):
         rng = gen.rng_for(self.seed, "c06")
         for kind, stream in (("tri", gen.tria_stream(self.seed + 3, n_tri, size)), ("tet", gen.tet_stream(self.seed + 3, n_tet, size))):
             for kk, c in enumerate(stream):
-                v, t = c["v"] * corr_fem.SCALES[kk % len(corr_fem.SCALES)], c["t"]
-                m = mk(kind, v, t)
+                sc = corr_fem.SCALES[kk % len(corr_fem.SCALES)]
+                v, t = c["v"] * sc, c["t"]
+                vint = c.get("vdtype") == "int64" and sc == 1.0
+                m = mk(kind, *gen.present(v, t, c.get("pres") or "plain", vint))
                 f = gen.vfuncs(rng, v)[0]
                 X = rng.normal(size=(len(t), 3))
+                # dtype of the function / field handed to the implementation (the model sees the same values)
+                fdt = ["float64", "int64", "float64", "uint8", "float64", "float32"][kk % 6]
+                xdt = ["float64", "float64", "int64"][kk % 3]
+                if fdt in ("int64", "uint8"):
+                    f = np.round(4 * f / max(np.abs(f).max(), 1e-30)) + (4 if fdt == "uint8" else 0)
+                elif fdt == "float32":
+                    f = f.astype(np.float32).astype(np.float64)
+                if xdt == "int64":
+                    X = np.round(3 * X)
+                f_in = f.astype(fdt); X_in = X.astype(xdt)
                 tag = "%s:%s" % (kind, c["name"])
-                stats.case(core.mesh_key(v, t, f[:3]), cls=[tag] + ["mod:" + x for x in c["tags"] if x != c["name"]],
+                stats.case(core.mesh_key(v, t, f[:3]), cls=[tag, "f-dtype:" + fdt, "X-dtype:" + xdt, "int-coords:%s" % vint] + ["mod:" + x for x in c["tags"] if x != c["name"]],
                            sample=dict(kind=kind, name=c["name"], nv=len(v), nt=len(t)))
                 sfx = "tri" if kind == "tri" else "tet"
                 with core.quiet():
-                    g_i = diffgeo.compute_gradient(m, f)
-                    d_i = diffgeo.compute_divergence(m, X)
+                    g_i = diffgeo.compute_gradient(m, f_in)
+                    d_i = diffgeo.compute_divergence(m, X_in)
                 r = wire.Reply(drv.ask("grad_%s %s %s %s" % (sfx, wire.verts(v), wire.elems(t), wire.rawfloats(f))))
                 g_m = r.v3s() if r.status == "ok" else None
                 r2 = wire.Reply(drv.ask("div_%s %s %s %s" % (sfx, wire.verts(v), wire.elems(t), wire.rawfloats(X))))
                 d_m = vec_from_coo(*r2.coo(), len(d_i)) if r2.status == "ok" else None
-                case = dict(kind=kind, v=v, t=t, f=f, X=X, name=c["name"])
-                if g_m is None or core.relerr(g_i, g_m) > 1e-9:
+                case = dict(kind=kind, v=v, t=t, f=f, X=X, name=c["name"], fdt=fdt, xdt=xdt, pres=c.get("pres"), vint=vint)
+                tolg = 1e-9 if fdt != "float32" else 1e-5
+                if g_m is None or core.relerr(g_i, g_m) > tolg:
                     fails.append(core.Failure("correspondence", "gradient kernel vs model", "%s rel.err %s" % (tag, None if g_m is None else core.relerr(g_i, g_m)), case))
                 if d_m is None or core.relerr(d_i, d_m) > 1e-9:
                     fails.append(core.Failure("correspondence", "divergence kernel vs model", "%s rel.err %s" % (tag, None if d_m is None else core.relerr(d_i, d_m)), case))
                 if kind == "tri":
                     with core.quiet():
-                        d2_i = diffgeo.tria_compute_divergence2(m, X)
+                        d2_i = diffgeo.tria_compute_divergence2(m, X_in)
                     r3 = wire.Reply(drv.ask("div_tri2 %s %s %s" % (wire.verts(v), wire.elems(t), wire.rawfloats(X))))
                     d2_m = vec_from_coo(*r3.coo(), len(d2_i)) if r3.status == "ok" else None
                     if d2_m is None or core.relerr(d2_i, d2_m) > 1e-9:
@@ -86,20 +99,34 @@ class Check(BaseCheck):
                              ("tet", gen.tet_stream(self.seed + 4, 16 if self.quick else 100, "small"))):
             for kk, c in enumerate(stream):
                 v = c["v"] * corr_fem.SCALES[kk % len(corr_fem.SCALES)]
-                yield dict(kind=kind, v=v, t=c["t"], f=gen.vfuncs(rng, v)[0], X=rng.normal(size=(len(c["t"]), 3)), name=c["name"])
+                f = gen.vfuncs(rng, v)[0]; X = rng.normal(size=(len(c["t"]), 3))
+                fdt = ["float64", "int64", "float64", "uint8"][kk % 4]; xdt = ["float64", "float64", "int64"][kk % 3]
+                if fdt != "float64":
+                    f = np.round(4 * f / max(np.abs(f).max(), 1e-30)) + (4 if fdt == "uint8" else 0)
+                if xdt == "int64":
+                    X = np.round(3 * X)
+                yield dict(kind=kind, v=v, t=c["t"], f=f, X=X, name=c["name"], fdt=fdt, xdt=xdt, pres=c.get("pres"),
+                           vint=bool(c.get("vdtype") == "int64" and corr_fem.SCALES[kk % len(corr_fem.SCALES)] == 1.0))
 
     def oracle(self, case):
         kind = case["kind"]
         v = np.asarray(case["v"], float); t = np.asarray(case["t"], dtype=np.int64)
         f = np.asarray(case["f"], float); X = np.asarray(case["X"], float)
-        m = mk(kind, v, t)
+        m = mk(kind, *gen.present(v, t, case.get("pres") or "plain", bool(case.get("vint"))))
+        f_in = f.astype(case.get("fdt") or "float64"); X_in = X.astype(case.get("xdt") or "float64")
+        # the property (and the theorems) quantify over elements above the kernels' own absolute degeneracy guard (2^-52)
+        if kind == "tri":
+            if np.min(np.linalg.norm(corr_fem.tri_geom(v, t)[3], axis=1)) < 4 * np.finfo(float).eps:
+                return None
+        elif np.min(np.abs(corr_fem.tet_geom(v, t)[1])) < 4 * np.finfo(float).eps:
+            return None
         rng = gen.rng_for(self.seed, "c06o", len(v))
         a = rng.normal(size=3); b = rng.normal()
         try:
             with core.quiet():
                 ga = diffgeo.compute_gradient(m, v @ a + b)
-                gf = diffgeo.compute_gradient(m, f)
-                dX = diffgeo.compute_divergence(m, X)
+                gf = diffgeo.compute_gradient(m, f_in)
+                dX = diffgeo.compute_divergence(m, X_in)
                 dg = diffgeo.compute_divergence(m, gf)
                 A = Solver(m).stiffness
         except Exception as e:  # noqa: BLE001
@@ -122,14 +149,14 @@ class Check(BaseCheck):
             gref = corr_fem.tet_grad(v, t, f)
         lhs = float(f[: len(dX)] @ dX) if len(dX) <= len(f) else float("nan")
         rhs = -float(np.sum(meas * np.einsum("ij,ij->i", X, gref)))
-        sc = max(abs(lhs), abs(rhs), np.sum(meas) * np.abs(X).max() * max(np.abs(gref).max(), 1e-12), 1e-12)
+        sc = max(abs(lhs), abs(rhs), np.sum(meas) * np.abs(X).max() * max(np.abs(gref).max(), 1e-12), np.abs(f).max() * np.abs(dX).sum(), 1e-12)
         if len(np.unique(t)) == len(v) and abs(lhs - rhs) > 1e-8 * sc:
             return core.Violation("adjoint", "sum f_i div(X)_i = %.10g but -sum meas X.grad f = %.10g" % (lhs, rhs), case, observed=lhs, expected=rhs)
         if abs(dX.sum()) > 1e-8 * max(np.abs(dX).max(), 1e-12) * len(dX):
             return core.Violation("sum-zero", "entries of div(X) sum to %.3g" % dX.sum(), case)
         if len(np.unique(t)) == len(v):
             r = dg + A @ f
-            if np.max(np.abs(r)) > 1e-7 * max(np.abs(A @ f).max(), 1e-12):
+            if np.max(np.abs(r)) > 1e-7 * max(np.abs(A @ f).max(), abs(A).max() * np.abs(f).max() * 1e-3, 1e-12):
                 return core.Violation("div-grad", "div(grad f) != -A f (max dev %.3g)" % np.max(np.abs(r)), case)
         if kind == "tri":
             _, _, _, cr, _ = corr_fem.tri_geom(v, t)
